@@ -18,7 +18,7 @@ THEOREMS = ["Ymq.C19." + t for t in (
 HYPOTHESES = ["inv_mod64_spec (theorems crt_symmetric, crt_sparse_symmetric): arith::inv_mod64(a, p) returns Some(i) with i < p and "
               "a*i = 1 (mod p) whenever gcd(a, p) = 1 (property C08)"]
 PROFILES = ["release", "chk"]
-TIMEOUT = 60.0
+TIMEOUT = 30.0
 W = 1 << 64
 
 # ======================================================================================
@@ -990,7 +990,9 @@ def sparse_cases(rng, tier, scale):
     # dense U·D·V given in sparse encoding: dense vs sparse agreement on the same matrix
     for _ in range(14 * scale):
         n = rng.choice([2, 3, 4, 6, 8, 9, 10, 12, 16, 24, 40])
-        M = udv(rng, n, rand_diag(rng, n, rng.choice(["one-big", "mixed", "chain", "singular"])), 5 * n, maxabs=2000)
+        M = udv(rng, n, rand_diag(rng, n, rng.choice(["one-big", "mixed", "chain", "singular"]), maxd=1 << 13), 5 * n, maxabs=2000)
+        if any(abs(x) >= 1 << 15 for r in M for x in r):
+            continue
         d = bareiss(M)
         s = enc_sparse(to_sparse(M))
         yield Case(f"im_det_sparse {s}", k=False, tag=str(d))
@@ -1013,6 +1015,11 @@ def sparse_cases(rng, tier, scale):
                 for x in diag:
                     d *= x
                 yield Case(f"im_det_sparse {enc_sparse(rows2)}", k=False, tag=str(d), timeout=300)
+    # coefficients outside i16 / column index outside the matrix: refused by assertion (were silently truncated)
+    yield Case("im_det_sparse 0:1,1:2;0:3,1:1000003", k=False, tag="refused")
+    yield Case("im_det_sparse 0:1,1:2;0:3,1:-32769", k=False, tag="refused")
+    yield Case("im_det_sparse 0:1,1:2;0:3,2:1", k=False, tag="refused")
+    yield Case("im_det_sparse 0:1,1:2;0:3,1:-32768", k=False, tag=str(-32768 - 6))
     # kernel modulo p: matrices of rank n-1 (last row = combination of the others)
     for _ in range(10 * scale):
         n = rng.choice([2, 3, 5, 8, 12, 20, 30])
@@ -1026,6 +1033,10 @@ def sparse_cases(rng, tier, scale):
         if max(abs(x) for x in v) > 30000:
             continue
         M[n - 1] = v
+        norm = sparse_norm(to_sparse(M))
+        # documented type selection: the accumulator of the widest instantiation is an I256, p * norm must fit
+        if p.bit_length() + norm.bit_length() > 253:
+            p = gen.rand_prime(rng, 253 - norm.bit_length())
         yield Case(f"im_ker_p256 {enc_sparse(to_sparse(M))} {p}", k=False)
     # Berlekamp-Massey on linear recurrent sequences
     for _ in range(30 * scale):
@@ -1072,11 +1083,10 @@ def perm_parity(p):
     return sign
 
 
-def cases(tier, rng, extended=False):
-    selftest(rng)
-    scale = 1 if tier == "quick" else 8
+def _all_cases(tier, rng, extended):
+    scale = 4 if tier == "quick" else 24
     if extended:
-        scale *= 4
+        scale *= 3
     yield from crt_cases(rng, 300 * scale)
     yield from perm_cases(rng, 200 * scale)
     yield from echelon_cases(rng, 120 * scale)
@@ -1085,6 +1095,19 @@ def cases(tier, rng, extended=False):
     yield from lattice_cases(rng, scale)
     yield from snf_cases(rng, scale)
     yield from sparse_cases(rng, tier, scale)
+
+
+def cases(tier, rng, extended=False):
+    selftest(rng)
+    for c in _all_cases(tier, rng, extended):
+        # the loops of reduce_cols / normalize / the permutation walk do not terminate when their arithmetic is wrong:
+        # these requests take milliseconds, a short watchdog keeps a broken build from stalling the whole check
+        if c.timeout is None:
+            if c.op.startswith("snf_") or c.op in ("im_snf", "im_snf_new", "im_perm_sign", "im_crt", "im_crt_sparse"):
+                c.timeout = 3.0
+            elif c.op in ("im_echelon", "im_detp", "im_lattice_index1"):
+                c.timeout = 5.0
+        yield c
 
 
 def followup(case, ans):
@@ -1368,6 +1391,8 @@ def oracle(case, ans):
         return None if ans == lst(want) else f"det mod p4 {ans[:60]} != {lst(want)[:60]}"
     if op in ("im_det_sparse", "im_det_sparse_par"):
         rows = dec_sparse(a[0])
+        if any(j >= len(rows) or not -(1 << 15) <= e < (1 << 15) for r in rows for j, e in r):
+            return None if ans == "panic" else f"matrix outside the representable domain must be refused, got {ans[:40]}"
         d = int(case.tag) if case.tag else bareiss(to_dense(rows, len(rows)))
         return None if ans == str(d) else f"det {ans[:60]} != {d}"
     if op == "im_ker_p256":
@@ -1377,7 +1402,9 @@ def oracle(case, ans):
         if ans == "none":
             # allowed when x^2 divides the characteristic polynomial mod p (or the rank is below n-1)
             c1 = sum(det_mod([[M[i][j] for j in range(n) if j != k] for i in range(n) if i != k], p) for k in range(n)) % p
-            return None if c1 == 0 else "None although 0 is a simple root of the characteristic polynomial"
+            if c1 == 0 or krylov_deficient(rows, p):
+                return None           # declared failure value: double root, or Krylov sequence of complexity < n
+            return "None although 0 is a simple root of the characteristic polynomial and the Krylov sequence is full"
         if ans in BAD:
             return f"no value returned ({ans})"
         v = unlst(ans)
@@ -1429,6 +1456,10 @@ def dimclass(n):
     return "d>300"
 
 
+def pclass(k):
+    return str(k) if k <= 2 else "3-5" if k <= 5 else "6-20" if k <= 20 else "21-64" if k <= 64 else ">64"
+
+
 def klass(case, ans):
     op, a = case.op, case.args
     bad = "/" + ans if ans in BAD else ""
@@ -1447,12 +1478,13 @@ def klass(case, ans):
             return f"{op}/{dimclass(n)}/{shape}{blk}/{res}{bad}"
         if op == "im_det":
             n = len(dec(a[0]))
-            return f"{op}/{dimclass(n)}/primes={-(-int(a[2]) // 60)}{bad}"
+            return f"{op}/{dimclass(n)}/primes={pclass(-(-int(a[2]) // 60))}{bad}"
         if op == "im_det_gram":
             return f"{op}/{dimclass(len(dec(a[0])))}/{'singular' if case.tag == '0' else 'regular'}{'/' + ans if ans in BAD or ans == 'dependent' else ''}"
         if op == "im_crtdet":
-            bits = unlst(a[3])
-            return f"{op}/{dimclass(len(dec(a[1])[0]))}/calls={len(bits)}/primes={'-'.join(str(-(-b // 60)) for b in bits[:4])}{bad}"
+            ps = [max(-(-b // 60), 2 if b == 60 else 1) for b in unlst(a[3])]
+            shape = "single" if len(ps) == 1 else "const" if len(set(ps)) == 1 else "growing" if max(ps[1:]) > ps[0] else "shrinking"
+            return f"{op}/{dimclass(len(dec(a[1])[0]))}/{shape}/primes={pclass(max(ps))}{bad}"
         if op == "im_lattice_index":
             M = dec(a[0])
             n = len(M[0]) if M else 0
@@ -1489,14 +1521,11 @@ def nontrivial(case, ans):
     return len(case.line) > 24
 
 
-def krylov_deficient(rows):
+def krylov_deficient(rows, p=(1 << 61) - 1):
     """True when the Krylov sequence e_0^T M^k v used by SparseMat::_detp4 cannot have linear complexity n:
     the left Krylov space of e_0 or the right Krylov space of the start vector is not the whole space
     (checked modulo a 61-bit prime)"""
     n = len(rows)
-    p = (1 << 61) - 1
-    M = to_dense(rows, n)
-    cols = [[(j, e) for j, e in r] for r in rows]
     v = [1] + [0] * (n - 1)
     left = []
     for _ in range(n):
